@@ -612,6 +612,7 @@ type Frame struct {
 type frameOpt struct {
 	rawSizeDelta int    // added to raw_size of a zlib blob
 	corruptZlib  bool   // flip a byte of the compressed data
+	trailingZlib bool   // one byte after the end of the zlib stream (all lengths consistent)
 	encoding     int    // 0 normal, 1 lzma field instead of raw/zlib, 2 no data field at all
 	typ          string // override block type
 	datasize     *int64 // override datasize written in the BlobHeader
@@ -634,6 +635,9 @@ func frame(typ string, payload []byte, useZlib bool, o frameOpt) Frame {
 			zd = append([]byte{}, zd...)
 			zd[len(zd)/2] ^= 0x5a
 			zd[len(zd)-2] ^= 0xff
+		}
+		if o.trailingZlib {
+			zd = append(append([]byte{}, zd...), 0)
 		}
 		blob.Int(2, int64(len(payload)+o.rawSizeDelta))
 		blob.Bytes(3, zd)
